@@ -8,6 +8,9 @@
 #include "vp_harness.h"
 #include "k.h"
 #include "ref_utf.h"
+#ifdef SCALARS
+#include "scalar_seq.h"
+#endif
 
 #define U8 1
 #define U16 2
@@ -61,22 +64,8 @@ REF_ENCODE_L1(N + 1)
 int vp_harness_main(void) {
   src_t sh[N + 1]; uint64_t n;
 #ifdef SCALARS
-  /* well-formed text: the standard encoding (reference encoder) of K arbitrary Unicode scalar values */
-  {
-    ref_item sc[SCALARS]; uint64_t k = vp_in_u64(); ASSUME(k <= SCALARS);
-    for (int i = 0; i < SCALARS; i++) { uint32_t v = vp_in_u32(); ASSUME(v <= 0x10FFFF && !(v >= 0xD800 && v <= 0xDFFF)); sc[i].v = v; sc[i].bad = 0; }
-#if SRC == U8
-    ref_encode_u8(sc, k, MODE_CHECK, sh, &n);
-#elif SRC == U16
-    ref_encode_u16(sc, k, MODE_CHECK, sh, &n);
-#elif SRC == L1
-    for (int i = 0; i < SCALARS; i++) ASSUME(sc[i].v < 0x100);
-    { uint64_t dummy; ref_encode_l1(sc, k, MODE_CHECK, 0, sh, &dummy); n = k; }
-#else
-    ref_encode_u32(sc, k, MODE_CHECK, sh, &n);
-#endif
-    ASSUME(n <= N);
-  }
+  /* well-formed text: the standard encoding of SHAPE_K arbitrary Unicode scalar values of a concrete shape (scalar_seq.h) */
+  { uint32_t vals[SHAPE_K ? SHAPE_K : 1]; SHAPE_ENCODE(SRC, src_t, sh, n, vals); ASSERT(n <= N, "shape fits (harness self-check)"); }
 #else
   n = vp_in_u64(); ASSUME(n <= N);
   for (int i = 0; i < N; i++) sh[i] = IN_UNIT();
